@@ -55,7 +55,12 @@ class Block:
             if m:
                 cur = (m.group(1), [p.strip() for p in m.group(2).split(',') if p.strip()])
                 own[k] = cur
-            if cur:
+            if cur and directive not in ('fn', 'loop'):
+                # hint blocks: a tag covers the following lines of the block too.  Contract blocks (@fn / @loop):
+                # a tag covers only its own clause; untagged clauses are auxiliary (frame / bookkeeping) and are
+                # attributed to the function's general obligation by the runner.
+                self.tags[k] = cur
+            elif m:
                 self.tags[k] = cur
         # a tag at the END of a multi-line clause also covers the clause's earlier lines: walk back while the
         # parentheses / brackets / braces of the tagged line are not yet balanced
@@ -345,8 +350,11 @@ def weave_all(repo_src, contracts_dir, spec_dir, out_dir, extra_blocks=None):
         sc = os.path.join(contracts_dir, fname[:-3] + '.contract')
         blocks = parse_sidecar(sc) if os.path.exists(sc) else []
         if extra_blocks and fname in extra_blocks:
-            for (directive, args, lines) in extra_blocks[fname]:
-                blocks.append(Block(len(blocks), directive, args, lines, '<generated>', 0))
+            # generated blocks go FIRST so that, at equal positions, they precede sidecar attributes
+            gen = [Block(0, directive, args, lines, '<generated>', 0) for (directive, args, lines) in extra_blocks[fname]]
+            blocks = gen + blocks
+            for k, b in enumerate(blocks):
+                b.bid = k
         src = Source(norm)
         try:
             ins = plan_insertions(src, blocks)
